@@ -27,6 +27,14 @@ func init() {
 		{WL: "opsim", Cfg: "prop=C02", Quick: 300, Thor: 8000},
 		{WL: "opsim", Cfg: "prop=C02,t=T1", Quick: 150, Thor: 4000},
 	}
+	plans["C17"] = []Part{
+		{WL: "opsim", Cfg: "prop=C17", Quick: 300, Thor: 8000},
+		{WL: "opsim", Cfg: "prop=C17,stopk=300", Quick: 300, Thor: 8000},
+		{WL: "opsim", Cfg: "prop=C17,t=T1", Quick: 100, Thor: 3000},
+	}
+	plans["C18"] = []Part{
+		{WL: "opsim", Cfg: "prop=C18", Quick: 400, Thor: 10000},
+	}
 	plans["C09"] = []Part{
 		{WL: "opsim", Cfg: "prop=C09", Quick: 400, Thor: 8000},
 		{WL: "opsim", Cfg: "prop=C09,t=T1", Quick: 150, Thor: 3000},
@@ -61,6 +69,8 @@ type opsimOpts struct {
 	Writes      int
 	SharedCron  bool
 	StartupFail bool
+	Shutdown    bool // a task requests Shutdown() at a tape-chosen scheduler step
+	Settings    bool // hooks with settings.executionMinInterval / executionBurst
 	Slow04      bool // hooks take a few hundred ms so that events pile up behind a running task
 }
 
@@ -83,8 +93,10 @@ func presetFor(prop string) opsimOpts {
 		o.Sched, o.Startup = 40, 40
 	case "C11":
 		o.Sched, o.SharedCron, o.MaxHooks, o.Writes = 100, true, 3, 3
+	case "C17":
+		o.Slow, o.Sched, o.FailPct, o.MaxHooks, o.Shutdown = true, 60, 25, 3, true
 	case "C18":
-		o.Sched = 50
+		o.Sched, o.Settings, o.Writes, o.NsDynamic = 50, true, 24, false
 	}
 	return o
 }
@@ -212,6 +224,12 @@ func genScenario(e *Env, o opsimOpts) *Scenario {
 				all = append(all, b.Name)
 			}
 			h.Sched = append(h.Sched, SchedBinding{Name: "probe", Crontab: "*/5 * * * * *", Queue: "probeq", IncludeSnapshots: all})
+		}
+		if o.Settings && wl.Choose(3) != 0 {
+			h.Extra = map[string]any{"settings": map[string]any{
+				"executionMinInterval": []string{"100ms", "500ms", "2s", "5s", "30s"}[wl.Choose(5)],
+				"executionBurst":       1 + wl.Choose(5),
+			}}
 		}
 		if h.OnStartup == nil && len(h.Kube) == 0 && len(h.Sched) == 0 {
 			one := 1
@@ -412,6 +430,8 @@ func runOpsimWL(e *Env) {
 	}
 
 	mutDone, settled, settling := false, false, false
+	shutdownReturned := false
+	var shutdownCalledAt, shutdownReturnedAt time.Duration
 	simrt.GoNamed("boot", func() {
 		startMut := func() {
 			simrt.GoNamed("mutator", func() {
@@ -452,6 +472,17 @@ func runOpsimWL(e *Env) {
 		if !early {
 			startMut()
 		}
+		if opts.Shutdown {
+			k := fl.Choose(e.CfgInt("stopk", 2500))
+			simrt.GoNamed("stopper", func() {
+				simrt.BlockUntil("stop-point", func() bool { return s.Steps >= k })
+				simrt.Count("fault:shutdown-requested")
+				shutdownCalledAt = e.Since()
+				o.Op.Shutdown()
+				shutdownReturnedAt = e.Since()
+				shutdownReturned = true
+			})
+		}
 		if opts.Faults {
 			simrt.GoNamed("faulter", func() {
 				n := 1 + fl.Choose(3)
@@ -480,7 +511,13 @@ func runOpsimWL(e *Env) {
 		if o.BootErr != nil {
 			return true
 		}
-		if !(mutDone && o.Quiet()) {
+		if opts.Shutdown {
+			// the run lasts until Shutdown() has returned, every execution in flight has ended and the
+			// workers had their time to notice; events and ticks keep arriving meanwhile
+			if !(shutdownReturned && mutDone && o.inFlight == 0) {
+				return false
+			}
+		} else if !(mutDone && o.Quiet()) {
 			return false
 		}
 		if !settling {
@@ -517,6 +554,10 @@ func runOpsimWL(e *Env) {
 		oracleC02(r)
 		oracleC01(r)
 		oracleC11(r)
+		oracleC18(r)
+		if opts.Shutdown {
+			oracleC17(r, shutdownCalledAt, shutdownReturnedAt)
+		}
 	}
 	if e.Detail {
 		var cfgs []map[string]string
